@@ -141,3 +141,24 @@ Definition step_or_skip (st : step) (s : state) : state :=
 Fixpoint run_from (l : list step) (s : state) {struct l} : state :=
   match l with [] => s | st :: r => run_from r (step_or_skip st s) end.
 Definition run (l : list step) : state := run_from l init.
+
+(* ---- readings used in the theorem statements (not part of the machine) *)
+(* number of live handles that denote map g *)
+Fixpoint refs (g : N) (hs : list (option handle)) {struct hs} : nat :=
+  match hs with
+  | [] => O
+  | Some h :: t => ((if N.eqb g (h_map h) then 1 else 0) + refs g t)%nat
+  | None :: t => refs g t
+  end.
+
+(* the log is a chain ending in the current map: every store replaced the map stored just before
+   it, and a store derived from a map (ReadCur) was derived from exactly the map it replaced *)
+Fixpoint chain (l : list (N * N * option N)) (c : N) {struct l} : Prop :=
+  match l with
+  | [] => c = 0
+  | (o, n, p) :: t => c = n /\ (forall b, p = Some b -> b = o) /\ chain t o
+  end.
+
+Fixpoint all_derived (l : list (N * N * option N)) {struct l} : bool :=
+  match l with [] => true | (_, _, Some _) :: t => all_derived t | (_, _, None) :: _ => false end.
+Definition is_store (st : step) : bool := match st with Store _ => true | _ => false end.
